@@ -10,6 +10,7 @@
       destructured locals normalises to the same atoms as arithmetic written with `self.stride.0`.
   D4  `let (a, b) = (e1, e2);` is split into `let a = e1; let b = e2;`.
   D5  a local closure whose every use is a direct call is inlined at its call sites.
+  D7  (applied by the loop-nest extractor sa/mac.py only) `for (i, e) in X.iter().enumerate()` over a pure place becomes `for i in 0..X.len()` with `e` replaced by `X[i]`.
   D6  `let d = (e0, e1, ..);` used only as `d.N` (with duplicable components) is replaced by its components.
 """
 import copy
@@ -346,6 +347,97 @@ def split_tuple_values(fn):
                     b2["stmts"] = [t for t in b2["stmts"] if not (t.get("k") == "let" and t.get("pat", {}).get("k") == "bind" and t["pat"].get("hid") == hid)]
             n += 1
     return n
+
+
+def enumerate_to_index(fn, types):
+    """D7  `for (i, e) in X.iter().enumerate() { body }`  ->  `for i in 0..X.len() { body[e := X[i]] }` when X is a pure place that the
+    body does not assign / borrow mutably as a whole (same elements, same order; the index form is what the loop-nest extractor reads)."""
+    n = 0
+    usize_t = types.index("usize") if "usize" in types else None
+    for lp in list(_walk(fn.get("body"))):
+        if lp.get("k") != "for":
+            continue
+        it = lp["iter"]
+        while it.get("k") == "blk" and not it["b"]["stmts"] and it["b"]["tail"] is not None:
+            it = it["b"]["tail"]
+        if not (it.get("k") == "mcall" and it.get("name") == "enumerate" and not it["args"]):
+            continue
+        src = it["recv"]
+        while src.get("k") == "blk" and not src["b"]["stmts"] and src["b"]["tail"] is not None:
+            src = src["b"]["tail"]
+        if not (src.get("k") == "mcall" and src.get("name") in ("iter", "iter_mut") and not src["args"]):
+            continue
+        X = src["recv"]
+        if not _pure_place_idx(X):
+            continue
+        pat = lp["pat"]
+        if not (pat.get("k") == "tuple" and len(pat["ps"]) == 2):
+            continue
+        pi, pe = pat["ps"]
+        while pe.get("k") in ("ref", "deref"):
+            pe = pe["p"]
+        if not (pi.get("k") == "bind" and pe.get("k") in ("bind", "wild") and not pe.get("sub")):
+            continue
+        r = _root(X) if X.get("k") != "index" else None
+        # the collection must not be reassigned inside the body
+        root = X
+        while root is not None and root.get("k") in ("field", "index", "ref", "un", "blk"):
+            root = root["b"] if root["k"] in ("field", "index") else (root["x"] if root["k"] in ("ref", "un") else root["b"]["tail"])
+        if root is None or root.get("k") != "local":
+            continue
+        bad = False
+        for x in _walk(lp["body"]):
+            if x.get("k") == "assign":
+                l = x["l"]
+                while l is not None and l.get("k") == "blk":
+                    l = l["b"]["tail"]
+                if l is not None and l.get("k") == "local" and l.get("hid") == root["hid"]:
+                    bad = True
+        if bad:
+            continue
+        idx_local = {"k": "local", "name": pi["name"], "hid": pi["hid"], "t": pi.get("t"), "line": lp.get("line")}
+        elem = {"k": "index", "b": copy.deepcopy(X), "i": idx_local, "t": pe.get("t"), "line": lp.get("line")}
+        if pe.get("k") == "bind":
+            eh = pe["hid"]
+
+            def subst(x):
+                if isinstance(x, list):
+                    return [subst(v) for v in x]
+                if not isinstance(x, dict):
+                    return x
+                if x.get("k") == "local" and x.get("hid") == eh:
+                    return copy.deepcopy(elem)
+                for k_, v in list(x.items()):
+                    if isinstance(v, (dict, list)):
+                        x[k_] = subst(v)
+                return x
+            lp["body"] = subst(lp["body"])
+        lp["pat"] = pi
+        lp["iter"] = {"k": "struct", "path": "std::ops::Range", "mac": "Desugaring(RangeExpr)", "line": lp.get("line"),
+                      "fs": [["start", {"k": "lit", "v": "0", "t": usize_t}],
+                             ["end", {"k": "mcall", "name": "len", "callee": "std::vec::Vec::<T, A>::len", "recv": copy.deepcopy(X), "args": [], "t": usize_t, "line": lp.get("line")}]]}
+        lp["from_enumerate"] = True
+        n += 1
+    return n
+
+
+def _pure_place_idx(n, depth=0):
+    if n is None or depth > 6:
+        return False
+    k = n.get("k")
+    if k == "local":
+        return True
+    if k == "field":
+        return _pure_place_idx(n["b"], depth + 1)
+    if k == "index":
+        return _pure_place_idx(n["b"], depth + 1) and _pure_place_idx(n["i"], depth + 1)
+    if k == "ref":
+        return _pure_place_idx(n["x"], depth + 1)
+    if k == "un" and n.get("op") == "Deref":
+        return _pure_place_idx(n["x"], depth + 1)
+    if k == "blk" and not n["b"]["stmts"] and n["b"]["tail"] is not None:
+        return _pure_place_idx(n["b"]["tail"], depth + 1)
+    return False
 
 
 _CTR = [0]
